@@ -71,10 +71,69 @@ def run(prog, chk):
     loop_var_value_exact(prog, chk)
     for_items_verbatim(prog, chk)
     visited_starts_empty(prog, chk)
+    conditions_evaluated_alike(prog, chk)
+    from props import C17
+    C17.limit_predicates(prog, chk)  # each loop is bounded on its own: the count compared with loop_limit is that loop's own counter
+    loop_variable_names_verbatim(prog, chk)
     extent_accumulation(prog, chk)
     from props import geomalg
     n = geomalg.check_sites(prog, chk, "C16")
     chk.floor("A17.site-algebra", n, 5, "loop parameter default case")
+
+
+def _passes_through(body, op, names, depth=10):
+    """does the value of `op` come out of a call to one of `names` (following moves, refs, derefs and `?`)?"""
+    if depth <= 0:
+        return False
+    o = R.origin(body, op, carriers=dict(R.CARRIERS, deref=0, as_str=0, as_ref=0, branch=0))
+    if o[0] == "call" and "fn" in o[2]:
+        c = Callee(o[2]["fn"])
+        if c.path.split("::")[-1] in names:
+            return True
+        return any(_passes_through(body, a, names, depth - 1) for a in o[2]["args"][:1])
+    if o[0] == "rv":
+        rv = o[1]
+        return any(isinstance(rv.get(k), dict) and _passes_through(body, rv[k], names, depth - 1) for k in ("op", "a"))
+    return False
+
+
+def conditions_evaluated_alike(prog, chk):
+    """`<if test>` and `<loop while / until>` hand the condition *as written* to eval_condition: none of them expands
+    it with eval_attr first (a textual $var substitution changes precedence: w="2 + 3", `$w * 2` -> `2 + 3 * 2`)"""
+    n = 0
+    for b in prog.bodies.values():
+        if b.unit != "svgdx-lib":
+            continue
+        for (bb, t, c) in b.call_sites(R.path_is("svgdx::expression::eval_condition")):
+            n += 1
+            pre = _passes_through(b, t["args"][0], ("eval_attr", "eval_vars", "eval_expr"))
+            chk.ob(not pre, "A13.condition-verbatim", f"{b.short}:eval_condition", b.where(bb, t.get("line")), "the condition is evaluated as written (variables are looked up as values inside the expression)", f"{b.short} expands the condition with eval_attr before evaluating it: variables are substituted as *text*, so `$w * 2` with w=\"2 + 3\" becomes `2 + 3 * 2`, and <if> no longer agrees with <loop while> / its own unrolling")
+    chk.floor("A13.condition-verbatim", n, 3, "eval_condition call site (if, while, until)")
+
+
+def loop_variable_names_verbatim(prog, chk):
+    """a loop binds only the variables its author names: the optional variable names of <for> / <loop> (idx-var,
+    loop-var) are the attribute as read, with no default name"""
+    n = 0
+    for path in ("<svgdx::loop_el::ForDef as std::convert::TryFrom<&svgdx::element::SvgElement>>::try_from", "<svgdx::loop_el::LoopDef as std::convert::TryFrom<&svgdx::element::SvgElement>>::try_from"):
+        b = prog.maybe_body(path)
+        if b is None:
+            chk.anchor_missing("A13.loop-var-names", f"{path} not found")
+            continue
+        chk.touch(b)
+        for x, i, st in b.all_stmts():
+            rv = st.get("rv") or {}
+            if rv.get("k") != "aggr" or "loop_el::" not in str(rv.get("adt", "")) or "Def" not in str(rv.get("adt", "")):
+                continue
+            for op in rv.get("ops", []):
+                pl = op_place(op)
+                if pl is None or "std::option::Option<std::string::String>" != (b.local_ty(pl[0]) or ""):
+                    continue
+                n += 1
+                o = R.origin(b, op, carriers=dict(R.CARRIERS))
+                ok = o[0] == "call" and "fn" in o[2] and Callee(o[2]["fn"]).path.endswith("SvgElement::get_attr")
+                chk.ob(ok, "A13.loop-var-names", f"{rv['adt'].split('::')[-1]}:optional-name", b.where(x, st.get("line")), "an optional loop variable name is exactly the attribute the author gave (None when absent)", f"an optional loop variable name of {rv['adt'].split('::')[-1]} is not the attribute as read ({o[0]}{': ' + Callee(o[2]['fn']).path if o[0] == 'call' and 'fn' in o[2] else ''}): a default name makes the loop assign a variable the author never asked for (clobbering an outer variable of that name)")
+    chk.floor("A13.loop-var-names", n, 1, "optional variable name stored by ForDef / LoopDef")
 
 
 def loop_element(prog, chk):
